@@ -15,6 +15,9 @@ CLAIMED = {
  "C10": ("exploration", "4.7", "(a) seeded build/maintenance histories on a virtual clock (loose objects, packs, duplicates, refs moved/deleted, detached HEAD, tags, alternates, clock advances and skews; pack_loose/repack/gc/prune with grace 0/None/default, midx, commit-graph) checked after every maintenance step against an object/ref model incl. the grace-period bound; (b) maintenance actor against 1-2 long-lived reader actors interleaved at syscall granularity with optional injected errors, every lookup/iteration of a reachable id must succeed",
          "refs fixed while readers run; 'young' = first added less than grace ago on the virtual clock (sound lower bound); schedules sampled",
          "deterministic simulation: virtual clock + simfs histories against a reference model; baton-passing reader/maintainer actors under seeded schedules with fault injection"),
+ "C19": ("exploration", "4.12", "the raw stream under Protocol/ReceivableProtocol/PktLineParser is owned by the simulator: seeded partitions of encoded streams into read/recv chunks (all 2^(n-1) partitions for streams up to 13 bytes), EOF/reset at every offset, all 65536 hex prefixes plus non-hex prefixes, mutated and random byte strings, oversize payloads through every encoder, side-band splitting on three channels, capability/ref lines, pkt-lines followed by a pack through PackStreamReader; every decoder is compared with an independent reference codec",
+         "reliable ordered byte streams (only fragmentation/EOF/reset injected); reference codec in the check is the oracle; C git's parser not compared",
+         "deterministic simulation of the byte-stream seam: simulator-chosen read/recv partitions and stream endings, differential against a reference codec"),
 }
 NA = {
  "C01": "pure function of object field values / setter order: no schedule, clock, fault or I/O seam for a simulator to own (DESIGN.md section 5)",
